@@ -170,7 +170,8 @@ GetItemX(heap, cur, arg) ==
 \* ---- library of callables -----------------------------------------------------------------------
 \* echo(*a, **kw) -> (a, kw);  first(x, ...) -> x;  boom(...) raises ValueError;  seven() -> 7
 CallFn(heap, f, args, kwargs) ==
-  IF f.k # "fn" THEN R(heap, Exc("TypeError"))                      \* not callable
+  IF IsRef(f) /\ heap[f.a].cls = "cobj" THEN R(heap, Ok(VStr("called")))     \* a callable object: __call__(*a, **kw) -> "called"
+  ELSE IF f.k # "fn" THEN R(heap, Exc("TypeError"))                      \* not callable
   ELSE CASE f.s = "echo" ->
               LET a1 == Alloc(heap, Cell("tuple", args))
                   a2 == Alloc(a1.heap, Cell("dict", [j \in 1..Len(kwargs) |-> <<VStr(kwargs[j][1]), kwargs[j][2]>>]))
